@@ -2,6 +2,12 @@ NOTES = ('Bounded-exhaustive model checking of the real implementation; see DESI
          'Known genuine defects are listed in known_findings.json.')
 NOT_APPLICABLE = {}
 CHECKS = {
+ 'C20': dict(engine='E2', design_ref='2.2, 4/C20',
+    technique='explicit-state breadth-first search over histories of public calls on real objects (state = digest of the complete attribute dictionary, replay on fresh objects, merging of equal states), invariants checked on every transition',
+    text='For Panel (flat, cylindrical), PanelAssembly and StiffPanelBay (four stiffener kinds) every history of public evaluation calls up to depth 2 (quick) / 3 (thorough) is executed; '
+         'on every transition the result must equal the result of the same call on a freshly defined object (bit-identical for matrices, vectors, fields; 1e-8 for eigenvalues), '
+         'each call must succeed first on a fresh object, caller inputs must be unchanged, and field results must be identical for every thread-count letter.',
+    note='OpenMP interleavings inside a fixed thread count are not controlled (stated limit); eigenvectors are excluded from the state digest as output-only fields; ConeCyl histories are covered in C17/C18 call sequences only'),
  'C19': dict(engine='E3', design_ref='4/C19',
     technique='exhaustive enumeration (full product of model x flow x coefficient letters x geometry x flag patterns x orders; Mach-route letters; bays with and without stiffener) on the real calc_kA/calc_cA against the piston-theory bilinear forms assembled from exact 1-D integrals',
     text='For every element of the product the finalised aerodynamic stiffness matrix is compared with beta*Int(w_A dw_B/dflow) - gamma*Int(w_A w_B) (w restrained on the flow edges), the damping matrix with -i*aeromu*Int(w_A w_B); '
